@@ -13,6 +13,14 @@ use lance_table::{
 use snafu::location;
 use std::sync::Arc;
 
+fn first_data_file(fragment: &Fragment) -> String {
+    fragment
+        .files
+        .first()
+        .map(|file| file.path.clone())
+        .unwrap_or_default()
+}
+
 /// Load a row id sequence from the given dataset and fragment.
 pub async fn load_row_id_sequence(
     dataset: &Dataset,
@@ -28,6 +36,7 @@ pub async fn load_row_id_sequence(
             let data = data.clone();
             let key = RowIdSequenceKey {
                 fragment_id: fragment.id,
+                data_file: first_data_file(fragment),
             };
             dataset
                 .metadata_cache
@@ -39,6 +48,7 @@ pub async fn load_row_id_sequence(
             let dataset_clone = dataset.clone();
             let key = RowIdSequenceKey {
                 fragment_id: fragment.id,
+                data_file: first_data_file(fragment),
             };
             dataset
                 .metadata_cache
